@@ -97,18 +97,9 @@ func (e *kvElection) handleValidationFailure(err error) {
 		)...,
 	)
 
-	e.becomeFollower()
-
-	e.mu.RLock()
-	onDemote := e.onDemote
-	e.mu.RUnlock()
-
-	if onDemote != nil {
-		log.Info("leader_demoted",
-			append(e.logWithContext(e.ctx),
-				zap.String("reason", "token_validation_failure"),
-			)...,
-		)
-		onDemote()
+	if !e.becomeFollower() {
+		// somebody else already noticed the loss and ran the callback
+		return
 	}
+	e.runOnDemote("token_validation_failure")
 }
